@@ -155,6 +155,21 @@ def r2(ctx, retsets):
                 if i.op == "call" and (i.callee or "").startswith("llvm.memcpy") and vf.root_of(vf.expr(fn, i.args[0])) == rec:
                     got[vf.last_field(vf.expr(fn, i.args[0]))] = ("load", vf.expr(fn, i.args[1]))
 
+        # prefix and length belong to the node: they change only when the node is refilled from a child, i.e. once per round of
+        # the loop that re-examines the node; the socket of a deleted element is the socket argument it was selected by
+        if rec is not None and inner:
+            outer = max(inner, key=len)
+            for i in fn.all_insts():
+                if i.op == "store" and fn.dom(i, d) and vf.root_of(vf.expr(fn, i["ptr"])) == rec:
+                    f_ = vf.store_field(i)
+                    if f_ in ("pfx_record.prefix", "pfx_record.min_len") and i.block.id in outer:
+                        got.setdefault(f_, vf.expr(fn, i["val"]))
+                    if f_ == "pfx_record.socket" and vf.expr(fn, i["val"]) == ("arg", 3):
+                        got.setdefault(f_, ("load", ("fld", ("own-socket",), "data_elem.socket")))
+                if i.op == "call" and (i.callee or "").startswith("llvm.memcpy") and fn.dom(i, d) and i.block.id in outer and \
+                        vf.root_of(vf.expr(fn, i.args[0])) == rec and vf.last_field(vf.expr(fn, i.args[0])) == "pfx_record.prefix":
+                    got.setdefault("pfx_record.prefix", ("load", vf.expr(fn, i.args[1])))
+
         def src_ok(f, v):
             if v is None or v[0] != "load":
                 return False
